@@ -111,6 +111,14 @@ func dateFromFormats(currentYear int, pattern *regexp.Regexp, d int, m int, y in
 	return dates.ZeroDate, str, fmt.Errorf("string '%s' couldn't be parsed as a date", str)
 }
 
+// IsWritableOffset returns whether the zone offset of the given time is one that can be read back once it has been
+// written. Parsing allows offsets of 24 hours and of 60 minutes, and both together (+24:60) make an offset of 25 hours
+// which is written as +25:00 and is then rejected as out of range - as text and as JSON.
+func IsWritableOffset(t time.Time) bool {
+	_, offset := t.Zone()
+	return offset > -25*60*60 && offset < 25*60*60
+}
+
 // DateTimeFromString returns a datetime constructed from the passed in string, or an error if we
 // are unable to extract one
 func DateTimeFromString(env Environment, str string, fillTime bool) (time.Time, error) {
@@ -119,7 +127,7 @@ func DateTimeFromString(env Environment, str string, fillTime bool) (time.Time, 
 	// first see if we can parse in any known ISO formats, if so return that
 	for _, format := range isoFormats {
 		parsed, err := time.ParseInLocation(format, str, env.Timezone())
-		if err == nil {
+		if err == nil && IsWritableOffset(parsed) {
 			return parsed, nil
 		}
 	}
